@@ -6,7 +6,7 @@
    Order relations are written Z.le (independent of the bind notations of Model.Passes). *)
 From Coq Require Import ZArith List String Ascii.
 From BB Require Import Base.PyBase Model.Items Model.Lexer Model.Passes Proofs.LexSep Proofs.LexFront Proofs.LexConst.
-From BB Require Model.Items Model.Passes Proofs.Subst.
+From BB Require Model.Items Model.Passes Proofs.Subst Model.PyExpr Model.Parser Proofs.IntSpell Proofs.NumTok.
 Import ListNotations.
 Open Scope Z_scope.
 Open Scope list_scope.
@@ -80,3 +80,16 @@ Example C11_subst_example :
   (exists i1, Passes.resolve_constants_lr (Subst.exs_its (Items.AName "K")) [] [] = Passes.Done (i1, [("K"%string, 4%Z)])) /\
   Subst.lssub [("K"%string, 4%Z)] (Subst.exs_its (Items.AName "K")) (Subst.exs_its (Items.ANum 4)).
 Proof. exact (conj Subst.exs_consts Subst.exs_related). Qed.
+
+(* "integer arithmetic" starts at the literals: for the expression model, a token of word characters that starts with a digit and
+   that the int(s, 0) model reads as v IS the number v -- in particular the decimal and the hexadecimal spelling of every value
+   below 2^64 -- as expression text and as an immediate operand (Proofs/NumTok.v over Proofs/IntSpell.v, by induction) *)
+Theorem C11_number_literals : forall (v : Z) (l : Items.line), 0 <= v < 2 ^ 64 ->
+  PyExpr.arith_of_string (dec_of_Z v) = Some (Items.ANum v) /\
+  Parser.parse_immediate [dec_of_Z v] l = Parser.FOk (Items.EArith (Items.ANum v)) /\
+  Parser.parse_immediate [LexFront.hex_of v] l = Parser.FOk (Items.EArith (Items.ANum v)).
+Proof.
+  intros v l Hv. pose proof IntSpell.lt_2_64_dec. pose proof IntSpell.lt_2_64_hex.
+  split; [apply NumTok.dec_arith; Lia.lia|split; [apply NumTok.dec_immediate; Lia.lia|apply NumTok.hex_immediate; Lia.lia]].
+Qed.
+Print Assumptions C11_number_literals.
